@@ -538,8 +538,10 @@ class CheckRun:
         ev = dict(property_id=self.prop, tier=self.tier, seed=self.seed, level=self.level,
                   coverage=cov, assumptions=self.assumptions, wall_s=round(wall, 2),
                   violations=len(groups))
-        os.makedirs(os.path.join(env.VERIF, 'evidence'), exist_ok=True)
-        with open(os.path.join(env.VERIF, 'evidence', f'{self.prop}.json'), 'w') as f:
+        # VMC_EVIDENCE_DIR: trial runs against a seeded change in a scratch worktree write elsewhere
+        evdir = os.environ.get('VMC_EVIDENCE_DIR') or os.path.join(env.VERIF, 'evidence')
+        os.makedirs(evdir, exist_ok=True)
+        with open(os.path.join(evdir, f'{self.prop}.json'), 'w') as f:
             json.dump(ev, f, indent=1)
         for ln in lines:
             print(ln)
